@@ -78,6 +78,24 @@ def run_shard(ctx):
         qcls[q["cls"]] = qcls.get(q["cls"], 0) + 1
         via = rng.choice(gq.CALL_FORMS)
         run_case(ctx, gg.to_nx(gd), gd, q, via=via)
+    # wide graphs (10..16 nodes): the verdict is compared with the Tian-Pearl reference at any size
+    nwide = 0
+    for _ in range(ctx.share({"quick": 1500, "thorough": 30000}[ctx.tier])):
+        if rng.random() < 0.5:
+            core = gg.random_admg(rng, rng.choice([3, 4, 5]))
+            q = gq.random_query(rng, core, max_size=3)
+            if q is None:
+                continue
+            gd, _pad = gg.embed_wide(core, rng, rng.randint(10, 16))
+        else:
+            gd = gg.random_admg(rng, rng.randint(10, 16), hostile=rng.choice(["none", "bow", "bichain", "isolated"]),
+                                p_di=rng.choice((0.1, 0.2, 0.3)), p_bi=rng.choice((0.05, 0.1, 0.2)))
+            q = gq.random_query(rng, gd, max_size=3)
+            if q is None:
+                continue
+        nwide += 1
+        run_case(ctx, gg.to_nx(gd), gd, q, via=rng.choice(("outcomes", "identify", "single", "from_parts", "raw-graph")))
+    ctx.extras["wide_graphs"] = nwide
     # histories on one shared graph object
     for _ in range(ctx.share({"quick": 48, "thorough": 1200}[ctx.tier])):
         gd = gg.random_admg(rng, rng.randint(4, 7))
